@@ -1112,10 +1112,14 @@ def _run(ck: Check):
 
     # ---- (c) the property's own oracle on the implementation: always run
     thorough = ck.thorough()
-    budget = (780 if thorough else 80) - (time.time() - t_start)
+    # the oracle's budget starts HERE: a Lean rebuild triggered by somebody else's dependency must not eat it
+    # (quick: 70 s, shortened only when the build took so long that the 150 s hard limit would be at risk)
+    elapsed = time.time() - t_start
+    budget = max(300.0, 780 - elapsed) if thorough else max(45.0, min(70.0, 135.0 - elapsed))
     t0 = time.time()
+    ck.extra["seconds_before_oracle"] = round(elapsed, 1)
     # hard stop for implementation evaluations, findings or not: what was found so far is reported
-    DEADLINE[0] = t_start + (870 if thorough else 125)
+    DEADLINE[0] = t0 + budget + (90 if thorough else 25)
     # corpus first
     for f in sorted((VERIF / "corpus" / "C12").glob("*.json")):
         try:
